@@ -633,6 +633,17 @@ def blank_sensitive_cases():
     return out
 
 
+def paren_ident_cases():
+    """A plain identifier whose name looks like a type name, alone in parentheses in front of an operator that is both
+    unary and binary: still an operand of the binary operator, never a cast (printed with the parentheses)."""
+    R = ("atom", ("reg", "R", "s"))
+    out = []
+    for name in ("cnt_t", "len_t", "my_int32_t", "carry_t", "uint"):
+        for op in ("-", "+", "*", "&"):
+            out.append(("bin", op, ("atom", ("id", name)), R))
+    return out
+
+
 def operator_pair_cases():
     """All ordered pairs of binary operators at equal or adjacent precedence levels, in both nestings."""
     A = ("atom", ("reg", "R", "s"))
